@@ -374,6 +374,64 @@ func (w *c10world) mutate(id string, v interface{}) error {
 	return txn.Create(v)
 }
 
+// mutateSeq applies several mutations of one id inside ONE write transaction. A resource that does not
+// exist yet is only created (what a client holds after a create followed by further events in the same
+// transaction is not defined by the property); an existing one is updated repeatedly, possibly deleted,
+// and updated again after the delete - which must fail and publish nothing.
+func (w *c10world) mutateSeq(id string, vs []interface{}) error {
+	txn := w.st.Write(w.storeID(id))
+	defer txn.Close()
+	if !txn.Exists() {
+		for _, v := range vs {
+			if v != nil {
+				return txn.Create(v)
+			}
+		}
+		return nil
+	}
+	var first error
+	for _, v := range vs {
+		var err error
+		if v == nil {
+			err = txn.Delete()
+		} else {
+			err = txn.Update(v)
+		}
+		if err != nil && first == nil {
+			first = err
+		}
+	}
+	return first
+}
+
+// observeSeq is observe for a transaction with several operations; only coherence is judged for it
+// (each operation may publish, so "nothing published when nothing changed" is not promised for the whole).
+func (w *c10world) observeSeq(id string, vs []interface{}, dbg string) (rec, error) {
+	rid := "test.r." + id
+	before, err := w.h.get(rid)
+	if err != nil {
+		return nil, err
+	}
+	if before["t"] == "missing" || w.cfg.trans == "failing" {
+		// creation (and visibility flips of the failing transformer) inside a longer transaction: not judged
+		for _, v := range vs {
+			if v != nil {
+				return w.observe(id, v, dbg)
+			}
+		}
+		return w.observe(id, nil, dbg)
+	}
+	from := len(w.h.conn.Pubs())
+	merr := w.mutateSeq(id, vs)
+	evs, stray, _ := w.h.eventsSince(from, rid)
+	after, err := w.h.get(rid)
+	if err != nil {
+		return nil, err
+	}
+	return rec{"judge": "coherent", "before": before, "evs": evs, "after": after, "stray": stray,
+		"dbg": fmt.Sprintf("%s %s %d operations in one transaction, first error=%v", w.cfg, dbg, len(vs), merr)}, nil
+}
+
 // observe performs a mutation and records before / events / after.
 func (w *c10world) observe(id string, v interface{}, dbg string) (rec, error) {
 	rid := "test.r." + id
@@ -506,7 +564,8 @@ func RunC10(c *core.Ctx) {
 		}
 		for hI := 0; hI < c.Pick(6, 60); hI++ {
 			id := fmt.Sprint(1 + hI%3)
-			for step := 0; step < 4; step++ {
+			var pending []interface{}
+			for step := 0; step < 6; step++ {
 				var v interface{}
 				if rng.Intn(4) != 0 {
 					n := rng.Intn(5)
@@ -528,6 +587,15 @@ func RunC10(c *core.Ctx) {
 						v = cc
 					}
 				}
+				if step >= 3 {
+					// the last steps of a history go into one transaction
+					pending = append(pending, v)
+					if step == 5 {
+						r, err := w.observeSeq(id, pending, fmt.Sprintf("history %d steps 4-6", hI))
+						add(cfg, r, err)
+					}
+					continue
+				}
 				r, err := w.observe(id, v, fmt.Sprintf("history %d step %d", hI, step))
 				add(cfg, r, err)
 			}
@@ -543,6 +611,9 @@ func RunC10(c *core.Ctx) {
 		var idx []int
 		for _, i := range bad {
 			for _, cl := range clauses {
+				if j := fmt.Sprint(recs[i].(rec)["judge"]); j != "all" && j != cl {
+					continue
+				}
 				r2 := rec{}
 				for k, v := range recs[i].(rec) {
 					r2[k] = v
